@@ -18,7 +18,8 @@ and restarts.
 Oracle: a reference model written from the property statement in exact
 rational arithmetic (fractions.Fraction): the boundary grid start + k*interval,
 "first boundary strictly after the completion of the previous call", the
-boundary count for withCount, and the one-shot result of start()'s Deferred.
+boundary count for withCount (also after reset() moved the grid, wherever nothing
+was owed at the reset - see Model.reset), and the one-shot result of start()'s Deferred.
 The LoopingCall receives a recording wrapper around the clock, so every timer
 it schedules is compared with the model on the DelayedCall's *scheduled* time
 (independent of how far a jump overshoots).
@@ -44,10 +45,18 @@ COMPONENTS = {"real": ["twisted.internet.task.LoopingCall (start/stop/reset/__ca
 RULE = ("run = one LoopingCall (dyadic interval, now flag, plain/withCount, clock family drawn) driven by 5..40 tape-chosen operations "
         "(clock step of a sub-interval / exact-interval / many-interval amount, run next timer, fire or fail the outstanding Deferred, stop, reset, restart - from the top level or from inside the callback of the previous start()'s Deferred); "
         "each call's behaviour (return, raise, fired Deferred, Deferred with timer latency, hand-fired Deferred, stop from inside) is drawn when it happens; "
+        "on withCount loops every count is compared with the model, before and after reset() (reset strictly between two boundaries, on a boundary, before the first call, "
+        "after a late call, after a slow Deferred, several in a row); "
         "non-trivial = at least 2 calls AND (a completion off the boundary grid, a clock overshoot, a stop or a reset occurred)")
 ASSUMPTIONS = ["interval > 0 and all times are dyadic rationals (exact in binary floating point), as in the statement's quantifier",
                "start() is not called again while a previous call's Deferred is still outstanding (caller error outside the statement)",
-               "the withCount sum clause is evaluated only on runs without reset() (it moves the boundary grid)",
+               "withCount and reset(): until the first effective reset() the sum clause is checked as a running total from start(); once reset() has moved the "
+               "boundary grid it is checked per call on the grid in force (count == boundaries in (previous invocation, this invocation]); the first call "
+               "after a reset gets a verdict (count == boundaries of the NEW grid elapsed since the reset) only if nothing was owed at the reset, i.e. no "
+               "boundary of the old grid had gone by unreported AND less than one interval had passed since the previous invocation (or start) - e.g. several "
+               "resets in a row that together postpone the call by more than an interval, or a reset after a slow Deferred spanned boundaries, leave it open "
+               "whether the owed iterations are dropped or carried, so only 'count >= boundaries of the new grid elapsed' is demanded there",
+               "a reset() issued while a call is in progress or its Deferred is unfired has nothing to skip and leaves the grid alone (same reading as the timer clauses)",
                "restart (start() after stop()/failure) is exercised on plain LoopingCalls only: a withCount LoopingCall keeps _realLastTime across stop(), "
                "so a restart within one interval of the last call computes count 0 and skips the immediate call; the statement speaks about one start()"]
 
@@ -77,12 +86,21 @@ class Model:
         self.grid_stable = True
         self.now_flag = False
         self.count_sum = 0
+        # withCount after reset(): `count_base` is the instant from which the boundaries reported by the NEXT call are
+        # counted on the current grid (the previous invocation, the start, or a reset that left nothing owed); None =
+        # no verdict for the next call (the statement does not say what becomes of boundaries that were owed at a reset).
+        self.count_base = None
+        self.last_inv = None    # Fraction: time of the last invocation (start time before the first one)
+        self.reset_since_call = False
 
     def start(self, t, interval, now):
         self.running = True
         self.origin = Fraction(t)
         self.I = Fraction(interval)
         self.now_flag = now
+        self.count_base = self.origin
+        self.last_inv = self.origin
+        self.reset_since_call = False
         if now:
             self.immediate = True
         else:
@@ -98,13 +116,8 @@ class Model:
 
     def boundaries_elapsed(self, t):
         """Number of boundaries origin + k*I, k >= 1, that are <= t."""
-        n = 0
-        b = self.origin + self.I
-        t = Fraction(t)
-        while b <= t:
-            n += 1
-            b += self.I
-        return n
+        n = (Fraction(t) - self.origin) // self.I   # exact floor
+        return int(n) if n > 0 else 0
 
     def complete(self, t, ok, exc=None):
         self.outstanding = False
@@ -125,12 +138,39 @@ class Model:
             self.expected.append(("lc",))
         # else: a call is in progress / outstanding; start()'s Deferred fires on its completion
 
+    def boundaries_between(self, t0, t1):
+        """Number of boundaries of the current grid in (t0, t1]."""
+        return self.boundaries_elapsed(t1) - self.boundaries_elapsed(t0)
+
     def reset(self, t):
-        if self.next_due is not None:
-            self.origin = Fraction(t)
-            self.next_due = self.origin + self.I
-            self.need_sched = True
+        """Returns None when the reset has no effect (a call is in progress / its Deferred unfired: nothing to skip,
+        the grid stays), else True/False = nothing / something was owed when the grid moved."""
+        if self.next_due is None:
+            return None
+        t = Fraction(t)
+        # Nothing is owed when (a) no boundary of the grid in force went by since the instant counting starts from and
+        # (b) less than one interval of time passed since the function was last invoked (or the loop started): then
+        # "boundaries elapsed", "calls that should have occurred since it was last invoked" and plain elapsed time
+        # all say zero, and whatever reset() does with what is owed, there is nothing for it to keep or to drop.
+        clean = (self.count_base is not None and self.boundaries_between(self.count_base, t) == 0
+                 and t - self.last_inv < self.I)
+        self.origin = t
+        self.next_due = self.origin + self.I
+        self.need_sched = True
         self.grid_stable = False
+        self.count_base = t if clean else None
+        self.reset_since_call = True
+        return clean
+
+    def counted_call(self, t):
+        """A withCount invocation at time t: the count the statement demands, or None (no verdict)."""
+        t = Fraction(t)
+        want = None if self.count_base is None else self.boundaries_between(self.count_base, t)
+        floor_ = self.boundaries_elapsed(t) if self.reset_since_call else None
+        self.count_base = t
+        self.last_inv = t
+        self.reset_since_call = False
+        return want, floor_
 
 
 class RecordingClock:
@@ -226,6 +266,24 @@ def run(sim):
         st["calls"] += 1
         if counted:
             sim.check("count-is-int", isinstance(count, int), "count", "count=%r" % (count,))
+            after_reset = m.reset_since_call
+            base = m.count_base
+            want_n, at_least = m.counted_call(t)
+            if not m.grid_stable:
+                # the grid was moved by reset(): per-call form of the sum clause on the grid in force
+                if want_n is not None:
+                    sim.probe("count_verdict_first_call_after_reset" if after_reset else "count_verdict_later_call_after_reset")
+                    if after_reset and Fraction(t) > m.origin + m.I:
+                        sim.probe("count_verdict_late_first_call_after_reset")
+                    sim.check("count-after-reset", count == want_n, "withCount",
+                              "count %d passed at t=%s, but %d boundaries of the grid origin=%s interval=%s elapsed since t=%s (%s)"
+                              % (count, t, want_n, float(m.origin), float(m.I), float(base),
+                                 "the reset, at which nothing was owed" if after_reset else "the previous call"))
+                else:
+                    sim.probe("count_no_verdict_after_reset_with_boundaries_owed")
+                    sim.check("count-after-reset-at-least", count >= at_least, "withCount",
+                              "count %d passed at t=%s, but %d boundaries of the new grid origin=%s interval=%s elapsed since the reset"
+                              % (count, t, at_least, float(m.origin), float(m.I)))
             if m.grid_stable:
                 m.count_sum += count
                 want = m.boundaries_elapsed(t) + (1 if m.now_flag else 0)
@@ -383,7 +441,9 @@ def run(sim):
             sim.event("reset", clk.seconds())
             if m.outstanding:
                 sim.probe("reset_while_outstanding")
-            m.reset(clk.seconds())
+            clean = m.reset(clk.seconds())
+            if counted and clean is not None:
+                sim.probe("reset_withCount_nothing_owed" if clean else "reset_withCount_boundaries_owed")
             with sim.guard("no-raise", "reset"):
                 lc.reset()
         else:
@@ -405,5 +465,9 @@ MUTANTS = [
     "task.py __call__.cb 'if self.running:' -> 'if True:' (reschedules after stop while a Deferred was outstanding): CAUGHT schedule-expected",
     "task.py reset() keeps old starttime ('self.starttime = ...' dropped): CAUGHT schedule-on-boundary",
     "task.py _intervalOf 'int(x)' -> 'int(round(x))': CAUGHT count-sum / schedule-expected",
+    "task.py _intervalOf 'int(x)' -> 'math.floor(x)' (times before the rebased starttime round away from zero: the first count after a reset strictly "
+    "between two boundaries is one too many): CAUGHT count-after-reset (was missed while counts were only checked on runs without reset())",
+    "task.py reset() additionally 'self._realLastTime = None' (with now=True the baseline moves back one interval: first count after a reset one too many): CAUGHT count-after-reset",
+    "task.py withCount counter 'self._realLastTime = now' -> 'self._realLastTime = self.starttime' (counts re-report boundaries after a reset / late call): CAUGHT count-sum / count-after-reset",
     "task.py _scheduleFrom 'if when == when + untilNextInterval:' -> 'if False:': SURVIVES - equivalent under the statement's dyadic-time quantifier (branch only guards float absorption at huge magnitudes)",
 ]
